@@ -449,14 +449,16 @@ def kernel_object_dispatch(task, bodies, enums, structs):
             ip = z3.BitVec("ip", 32)
             S, T = z3.BitVec("S", 32), z3.BitVec("T", 32)
             parent = b.pointer("P")
-            b.constraints.append(b.syms["P"][0] != K_REF)  # shape: the chain ends in null / an integer / a boolean
+            # shape: the chain ends in null / an integer / a boolean / the array in heap cell #2
+            b.constraints.append(z3.Or(b.syms["P"][0] != K_REF, b.syms["P"][3] == 2))
             consts = [Enum("ProgramObject", PO.index("String"), {PO.index("String"): [b.new(Str(name))]})]
             program = b.program(consts, CODE_LEN)
             obj0 = b.object_cell(parent, [], [("m", b.po_method(0, 2, 1, BV(S, 32, False), 1))])
             obj1 = b.object_cell(b.pointer_const(K_REF, 0), [], [("n", b.po_method(0, 2, 0, BV(T, 32, False), 1))])
             args = [b.pointer("a%d" % i) for i in range(nargs)]
             stack = [b.pointer("s0"), b.pointer_const(K_REF, recv)] + args
-            state = b.state(stack, [b.frame(None, [b.pointer("l0")])], BV(ip, 32, False), [obj0, obj1])
+            arr2 = b.array_cell([b.pointer_const(K_INT, 10), b.pointer_const(K_INT, 20)])
+            state = b.state(stack, [b.frame(None, [b.pointer("l0")])], BV(ip, 32, False), [obj0, obj1, arr2])
             state_cell = b.new(state)
             try:
                 outcomes = list(ex.run(body, [Ref(b.new(program)), Ref(state_cell), Ref(b.new(b.cpi(0))),
@@ -482,6 +484,11 @@ def kernel_object_dispatch(task, bodies, enums, structs):
                 return z3.Or([z3.And(r[0], r[1]) for r in rows]) if rows and nargs == 1 else z3.BoolVal(False)
             prim_defined = z3.And(z3.Not(user), z3.Or(z3.And(pk == K_INT, builtin_defined(rows_int)), z3.And(pk == K_BOOL, builtin_defined(rows_bool))))
             prim_dontcare = z3.And(z3.Not(user), pk == K_INT, z3.Or([z3.And(r[0], r[5]) for r in rows_int])) if nargs == 1 else z3.BoolVal(False)
+            # the chain ends in an array: its built-ins get(i) / set(i, v) on the two elements
+            in_range = z3.And(a_terms[0][0] == K_INT, a_terms[0][1] >= 0, a_terms[0][1] < 2)
+            arr_get = z3.And(z3.Not(user), pk == K_REF, name == z3.StringVal("get"), in_range) if nargs == 1 else z3.BoolVal(False)
+            arr_set = z3.And(z3.Not(user), pk == K_REF, name == z3.StringVal("set"), in_range) if nargs == 2 else z3.BoolVal(False)
+            prim_defined = z3.Or(prim_defined, arr_get, arr_set)
             user_defined = z3.And(user, nargs == 1)
 
             def judge(o, recv=recv, nargs=nargs, a_terms=a_terms, state_cell=state_cell, b=b):
@@ -531,6 +538,20 @@ def kernel_object_dispatch(task, bodies, enums, structs):
                 if None in res:
                     return None, "built-in result is an opaque value"
                 conj = [z3.Or(prim_defined, prim_dontcare)]
+                heap = field(st, S_, sf, "heap")
+                cells_ = field(st, heap, structs["Heap"], "memory")
+                arr_obj = st[cells_.cells[2]]
+                elems = st[st[arr_obj.payload[0][0]].cells[0]]
+                if len(elems.cells) != 2:
+                    return z3.BoolVal(False), "Ok(built-in) but the array has %d elements" % len(elems.cells)
+                e0, e1 = (pointer_terms(st, st[c]) for c in elems.cells)
+                i0 = a_terms[0][1]
+                conj.append(z3.Implies(arr_get, z3.And(res[0] == K_INT, res[1] == z3.If(i0 == 0, z3.BitVecVal(10, 32), z3.BitVecVal(20, 32)))))
+                if nargs == 2:
+                    kept = lambda e, v: z3.And(e[0] == K_INT, e[1] == v)
+                    conj.append(z3.Implies(arr_set, z3.And(same_pointer(res, a_terms[1]),
+                                                           z3.If(i0 == 0, z3.And(same_pointer(e0, a_terms[1]), kept(e1, 20)), z3.And(kept(e0, 10), same_pointer(e1, a_terms[1]))))))
+                conj.append(z3.Implies(z3.Not(arr_set), z3.And(e0[0] == K_INT, e0[1] == 10, e1[0] == K_INT, e1[1] == 20)))
                 for rows, kind in ((rows_int, K_INT), (rows_bool, K_BOOL)):
                     for (cond, dfn, rkind, ival, bval, dc) in rows:
                         same = z3.And(res[0] == rkind, res[1] == ival) if rkind == K_INT else z3.And(res[0] == rkind, res[2] == bval)
@@ -563,6 +584,14 @@ def expect_object_method(name, recv, parent, args):
         k, v = p.split(":")
         return (k, bool(int(v)) if k == "bool" else int(v))
     if parent == "null":
+        return "ERR"
+    if parent.startswith("ref:"):   # the array [10, 20] in heap cell #2
+        i = val(args[0]) if args else None
+        ok = i is not None and i[0] == "int" and 0 <= i[1] < 2
+        if name == "get" and len(args) == 1 and ok:
+            return "OK int:%d" % (10, 20)[i[1]]
+        if name == "set" and len(args) == 2 and ok:
+            return "OK %s" % args[1]
         return "ERR"
     r = c09.concrete_spec(val(parent), name, [val(a) for a in args])
     if r[0] == "ok":
